@@ -904,3 +904,126 @@ func c12PerNameInclusion(c *Ctx, rule string) {
 	c.Check(early == "", rule, "maybeIncludeLabel:each name is decided on its own", loop.Pos(), "the loop over names is never left early",
 		"the loop over the by(...) labels is left with `"+early+"` as soon as one label is found excluded: the remaining labels are not recorded as included, the aggregation is treated as carrying none of them, and joins on those labels are reported as dead code")
 }
+
+// c04NoExperimentalFlag: the function and aggregator tables (R2) are checked
+// against the NON-experimental part of the vendored parser; a rule using an
+// experimental function is a syntax error for pint exactly as it is for a
+// default Prometheus. Nothing in the module (outside tests) may switch the
+// parser's process-wide EnableExperimentalFunctions flag.
+func c04NoExperimentalFlag(c *Ctx, rule string) {
+	p := c.P
+	bad := ""
+	n := 0
+	for _, fi := range p.AllFuncs() {
+		if fi.Decl.Body == nil || p.IsTestFile(fi.Decl.Pos()) {
+			continue
+		}
+		n++
+		info := fi.Pkg.TypesInfo
+		ast.Inspect(fi.Decl.Body, func(nd ast.Node) bool {
+			as, ok := nd.(*ast.AssignStmt)
+			if !ok {
+				return true
+			}
+			for _, l := range as.Lhs {
+				if o := objOf(info, l); o != nil && o.Pkg() != nil && o.Pkg().Path() == promParserPath && o.Name() == "EnableExperimentalFunctions" {
+					bad = fi.Name + " at " + p.Pos(as.Pos())
+				}
+			}
+			return true
+		})
+	}
+	c.Check(bad == "", rule, "nothing enables the parser's experimental functions", token.NoPos, itoa(n)+" functions inspected",
+		"promql/parser.EnableExperimentalFunctions is written in "+bad+": expressions a default Prometheus refuses to load are accepted, and functions the label analysis has no case for fall to its `unsupported` path (wrong label verdicts)")
+}
+
+// c04CanHaveLabelInputs: CanHaveLabel decides from the four label fields the
+// narrowing table (R3) keeps track of. A verdict that consults any other field
+// of Source is outside that table.
+func c04CanHaveLabelInputs(c *Ctx, rule string) {
+	fi := c.MustFunc(rule, "internal/parser/utils.Source.CanHaveLabel")
+	if fi == nil {
+		return
+	}
+	info := fi.Pkg.TypesInfo
+	allowed := map[string]bool{"ExcludedLabels": true, "IncludedLabels": true, "GuaranteedLabels": true, "FixedLabels": true}
+	other := ""
+	seen := map[string]bool{}
+	ast.Inspect(fi.Decl.Body, func(n ast.Node) bool {
+		if sel, ok := n.(*ast.SelectorExpr); ok && fieldOwner(info, sel) == qSource {
+			seen[sel.Sel.Name] = true
+			if !allowed[sel.Sel.Name] {
+				other = sel.Sel.Name
+			}
+		}
+		return true
+	})
+	c.Check(other == "" && len(seen) == 4, rule, "CanHaveLabel:decides from the four tracked label fields only", fi.Decl.Pos(), strings.Join(sortedKeys(seen), ","),
+		"CanHaveLabel consults Source."+other+" (or no longer all of Excluded/Included/Guaranteed/FixedLabels): a verdict that depends on state the narrowing table does not track — e.g. a flag set for vector() that later label-adding steps never clear makes `label_replace(vector(1), \"severity\", …)` lose its label")
+}
+
+// c04EveryBranchEmitted: every result branch computed by the transfer functions
+// is emitted: an `src = append(src, x)` inside a loop over sources is not
+// preceded, in that loop's body, by a statement that can skip the element, and
+// is not guarded by a condition on what was already emitted.
+func c04EveryBranchEmitted(c *Ctx, rule string) {
+	n := 0
+	for _, fname := range []string{"walkNode", "walkAggregation", "parseAggregation", "parseCall", "parseBinOps"} {
+		fi := c.MustFunc(rule, "internal/parser/utils."+fname)
+		if fi == nil {
+			continue
+		}
+		info := fi.Pkg.TypesInfo
+		pm := parentMap(fi.Decl.Body)
+		var res types.Object
+		if r := fi.Obj.Type().(*types.Signature).Results(); r.Len() > 0 {
+			res = r.At(0)
+		}
+		seq := 0
+		ast.Inspect(fi.Decl.Body, func(nd ast.Node) bool {
+			as, ok := nd.(*ast.AssignStmt)
+			if !ok || len(as.Lhs) != 1 || len(as.Rhs) != 1 || !isObj(info, as.Lhs[0], res) {
+				return true
+			}
+			call, ok := as.Rhs[0].(*ast.CallExpr)
+			if !ok || exprStr(call.Fun) != "append" {
+				return true
+			}
+			var loop *ast.RangeStmt
+			for cur := pm[ast.Node(as)]; cur != nil; cur = pm[cur] {
+				if rs, ok := cur.(*ast.RangeStmt); ok {
+					loop = rs
+					break
+				}
+			}
+			if loop == nil {
+				return true
+			}
+			n++
+			seq++
+			bad := ""
+			// a skip before the append in the same loop body whose guard looks at the result list
+			ast.Inspect(loop.Body, func(m ast.Node) bool {
+				br, ok := m.(*ast.BranchStmt)
+				if !ok || br.Pos() > as.Pos() || (br.Tok != token.CONTINUE && br.Tok != token.BREAK) {
+					return true
+				}
+				for _, a := range lexicalGuards(pm, br, loop.Body) {
+					if mentionsObj(info, a.E, res) {
+						bad = "skipped under `" + roleStr(info, a.E) + "`"
+					}
+				}
+				return true
+			})
+			for _, a := range lexicalGuards(pm, as, loop.Body) {
+				if mentionsObj(info, a.E, res) {
+					bad = "guarded by `" + roleStr(info, a.E) + "`"
+				}
+			}
+			c.Check(bad == "", rule, fname+":result branch #"+itoa(seq)+" is emitted whatever was emitted before", as.Pos(), "unconditional w.r.t. the result list",
+				"a result branch is "+bad+", a condition on the sources already emitted: branches that merely look alike (same position: every source of one function argument has it) are dropped, so series they produce match no branch pint derived")
+			return true
+		})
+	}
+	c.Check(n >= 15, rule, "result-branch emissions enumerated", token.NoPos, itoa(n), "implausibly few ("+itoa(n)+")")
+}
